@@ -151,7 +151,14 @@ def translate():
     except Exception:
         rep['purity'] = {'error': out3[-500:]}
         rep['untranslatable'].append({'name': 'purity_scan', 'group': 'Purity', 'why': out3[-500:]})
-    return rep, out + out2 + out3
+    # the constants and shape of the binary format (Gen_Tags.v)
+    rc4, out4 = sh([sys.executable, os.path.join(VERIF, 'tools', 'cxx_tags.py'), REPO, os.path.join(COQ, 'gen')], timeout=300)
+    try:
+        rep['tags'] = json.loads(out4.strip().split('\n')[-1])
+    except Exception:
+        rep['tags'] = {'error': out4[-500:]}
+        rep['untranslatable'].append({'name': 'io_tags', 'group': 'Tags', 'why': out4[-500:]})
+    return rep, out + out2 + out3 + out4
 
 
 def coq_makefile():
